@@ -529,6 +529,7 @@ fi
     local nliterals=${{#literals[@]}}
     while [[ $word_index -lt $cword ]]; do
         local word=${{words[$word_index]}}
+        local command_candidates_seen=0
 
         if [[ -v "literal_transitions[$state]" ]]; then
             local -A state_transitions=${{literal_transitions[$state]}}
@@ -575,6 +576,7 @@ fi
             for cmd_id in "${{!state_commands[@]}}"; do
                 readarray -t candidates < <(_{command}_cmd_$cmd_id "" "" | while IFS=$'\t' read -r f1 _; do printf '%s\n' "$f1"; done)
                 if [[ ${{#candidates[@]}} -gt 0 ]]; then
+                    command_candidates_seen=1
                     indexes=($(
                         for i in "${{!candidates[@]}}" ; do
                             printf '%s %s %s\n' $i "${{#candidates[i]}}" "${{candidates[i]}}"
@@ -592,10 +594,6 @@ fi
                             continue 3
                         fi
                     done
-
-                    if [[ $(($word_index + 1)) == $cword ]]; then
-                        break 3
-                    fi
                 fi
             done
         fi
@@ -619,6 +617,12 @@ fi
     write!(
         buffer,
         r#"
+        # No transition reads the word.  If it is the last complete one and a command was expected here,
+        # complete as if it had not been typed (only after every command and <PLACEHOLDER> had its chance).
+        if [[ $command_candidates_seen -eq 1 && $(($word_index + 1)) == $cword ]]; then
+            break
+        fi
+
         return 1
     done
 
